@@ -1,0 +1,9 @@
+//go:build verif
+
+package geom
+
+// VerifSolve3 exposes the unexported polynomial root finder to the verification harness.
+// coeff[i] is the coefficient of t^i.
+func VerifSolve3(coeff [4]float64) []float64 {
+	return solve3(coeff[:])
+}
